@@ -64,6 +64,9 @@ def toy_target(tseed):
         {"id": "c.view", "type": "ViewParameter", "parameter": "c", "indices": "1:3"},
         {"id": "c.rev", "type": "ViewParameter", "parameter": "c", "indices": "3:1:-1"},
         TP("t", "torch.distributions.ExpTransform", P("z", [r(-0.5, 0.5) for _ in range(2)])),
+        # transformed parameters over LISTS of parameters (an anonymous concatenation sits in between)
+        TP("t2", "torch.distributions.ExpTransform", [P("z1", [r(-0.5, 0.5), r(-0.5, 0.5)]), P("z2", [r(-0.5, 0.5)])]),
+        TP("t3", "torch.distributions.ExpTransform", [P("z3", [r(-0.5, 0.5)]), P("z4", [r(-0.5, 0.5), r(-0.5, 0.5)])]),
         {"id": "joint", "type": "JointDistributionModel", "distributions": [
             dist("prior.a", "Gamma", "a", concentration=2.0, rate=3.0),
             dist("prior.b", "Normal", "b", loc=P("b.loc", [0.5, -0.25]), scale="t"),
@@ -71,10 +74,12 @@ def toy_target(tseed):
             dist("prior.c", "LogNormal", "c", loc=0.25, scale=0.75),
             dist("prior.t", "Gamma", "t", concentration=3.0, rate=2.0),
             "t",
+            dist("prior.t2", "Gamma", "t2", concentration=2.5, rate=2.0), "t2",
+            dist("prior.t3", "Gamma", "t3", concentration=2.0, rate=1.5), "t3",
         ]},
     ]
-    return dict(name="toy", objs=objs, joint="joint", leaves=["a", "b", "p", "c", "z"],
-                watch=["c.view", "c.rev", "t"])
+    return dict(name="toy", objs=objs, joint="joint", leaves=["a", "b", "p", "c", "z", "z1", "z2", "z3", "z4"],
+                watch=["c.view", "c.rev", "t", "t2", "t3"])
 
 
 def toy_operators(rng, mix, adapt):
@@ -98,7 +103,7 @@ def toy_operators(rng, mix, adapt):
             ops.append({"id": "op.dirichlet", "type": "DirichletOperator", "parameters": "p",
                         "weight": w(), "scaler": round(rng.uniform(20.0, 200.0), 1),
                         "target_acceptance_probability": 0.24, "disable_adaptation": da})
-        elif k in ("hmc", "hmc_adaptive", "hmc_dual"):
+        elif k in ("hmc", "hmc_adaptive", "hmc_dual", "hmc_mass", "hmc_mass_dense"):
             op = {"id": "op." + k, "type": "HMCOperator", "joint": "joint", "parameters": ["b", "z"],
                   "weight": w(), "target_acceptance_probability": 0.8, "disable_adaptation": da,
                   "integrator": {"id": k + ".leapfrog", "type": "LeapfrogIntegrator",
@@ -106,6 +111,12 @@ def toy_operators(rng, mix, adapt):
                                  "step_size": round(rng.uniform(0.05, 0.4), 3)},
                   "mass_matrix": {"id": k + ".mass", "type": "Parameter", "tensor": [1.0, 1.0, 1.0, 1.0]},
                   "adaptors": []}
+            if k in ("hmc_mass", "hmc_mass_dense"):
+                if k == "hmc_mass_dense":
+                    op["mass_matrix"] = {"id": k + ".mass", "type": "Parameter",
+                                         "tensor": [[1.0 if i == j else 0.0 for j in range(4)] for i in range(4)]}
+                op["adaptors"].append({"id": k + ".adaptor", "type": "MassMatrixAdaptor", "parameters": ["b", "z"],
+                                       "mass_matrix": k + ".mass", "update_frequency": 7})
             if k == "hmc_adaptive" and adapt:
                 op["adaptors"].append({"id": k + ".adaptor", "type": "AdaptiveStepSize",
                                        "integrator": k + ".leapfrog",
@@ -114,6 +125,15 @@ def toy_operators(rng, mix, adapt):
                 op["adaptors"].append({"id": k + ".adaptor", "type": "DualAveragingStepSize",
                                        "integrator": k + ".leapfrog"})
             ops.append(op)
+        elif k == "scaler_cat":
+            # one operator on two transformed parameters, each over a list of parameters
+            ops.append({"id": "op.scaler_cat", "type": "ScalerOperator", "parameters": ["t2", "t3"],
+                        "weight": w(), "scaler": round(rng.uniform(0.3, 0.7), 3),
+                        "target_acceptance_probability": 0.24, "disable_adaptation": da})
+        elif k == "sliding_cat":
+            ops.append({"id": "op.sliding_cat", "type": "SlidingWindowOperator", "parameters": ["t3", "t2", "t"],
+                        "weight": w(), "width": round(rng.uniform(0.5, 2.0), 3),
+                        "target_acceptance_probability": 0.24, "disable_adaptation": da})
         elif k == "scaler_transformed":
             # an operator whose parameter is a TransformedParameter (what the CLI does with
             # gmrf.precision for the block-updating operator)
@@ -267,6 +287,10 @@ def plan(tier, seed):
     add("toy", ["sliding", "hmc_adaptive", "dirichlet"], True, n(120, 800), 1)
     add("toy", ["scaler", "hmc_dual"], True, n(120, 800), 2)
     add("toy", ["scaler_transformed", "sliding"], True, n(100, 400), 1)
+    add("toy", ["scaler_cat", "sliding"], True, n(100, 400), 1)
+    add("toy", ["hmc_mass", "scaler"], True, n(80, 400), 1)
+    add("toy", ["hmc_mass_dense"], True, n(60, 300), 1)
+    add("toy", ["scaler_cat", "scaler"], False, n(100, 400), 1)
     for k, ad in (("scaler", True), ("sliding", False), ("dirichlet", True), ("hmc", True),
                   ("scaler_rev", False)):
         add("toy", [k], ad, n(100, 400), 1)
@@ -491,6 +515,17 @@ class Recorder:
                 v = o_kin(momentum, inverse_mass_matrix)
                 if rec.cur is not None and rec.phase == "step":
                     rec.cur["kin"].append(float(v))
+                    # independent of the operator's cached inverse: the momentum was drawn from
+                    # N(0, M) with M the LIVE mass-matrix parameter, so K(p) = p^T M^-1 p / 2
+                    try:
+                        torch = rec.torch
+                        M = op._mass_matrix.tensor.detach().to(torch.float64)
+                        pm = momentum.detach().to(torch.float64)
+                        kt = 0.5 * float((pm * pm / M).sum()) if M.dim() == 1 else \
+                            0.5 * float(pm @ torch.linalg.solve(M, pm))
+                    except Exception:
+                        kt = float("nan")
+                    rec.cur.setdefault("kin_true", []).append(kt)
                 return v
 
             ham.kinetic_energy = kinetic_energy
@@ -575,7 +610,13 @@ def layout(target, init_state):
     return out
 
 
-TOY_VIEWS = {"c.view": ("c", [1, 2]), "c.rev": ("c", [3, 2]), "t": ("z", [0, 1])}
+TOY_VIEWS = {"c.view": ("c", [1, 2]), "c.rev": ("c", [3, 2]), "t": ("z", [0, 1]),
+             "t2": [("z1", [0, 1]), ("z2", [0])], "t3": [("z3", [0]), ("z4", [0, 1])]}
+
+
+def view_parts(views, pid):
+    v = views[pid]
+    return [v] if isinstance(v, tuple) else list(v)
 PHYLO_VIEWS = {"gmrf.precision": ("gmrf.precision.unres", [0])}
 
 
@@ -592,9 +633,7 @@ def op_slots(run, opinfo):
             slots.append(list(range(o, o + n)))
         else:
             views = TOY_VIEWS if run["target"]["name"] == "toy" else PHYLO_VIEWS
-            base, idx = views[pid]
-            o, _ = lay[base]
-            slots.append([o + i for i in idx])
+            slots.append([lay[base][0] + i for base, idx in view_parts(views, pid) for i in idx])
     return slots
 
 
@@ -829,7 +868,7 @@ def check_run(ri, run, fresh):
                 # parameters moved, and in constrained space they are back within a few ulp
                 tiny = all(abs(a - b) <= 1e-13 * max(1.0, abs(b))
                            for pid in bad for a, b in zip(c["after"][pid], c["before"][pid]))
-                roundtrip = bool(through) and tiny and set(bad) <= {views[p][0] for p in through} and \
+                roundtrip = bool(through) and tiny and set(bad) <= {b for p in through for b, _ in view_parts(views, p)} and \
                     set(badw) <= set(through) and \
                     all(_ulps(c["wafter"][p], c["wbefore"][p]) is not None and
                         _ulps(c["wafter"][p], c["wbefore"][p]) <= 4 for p in through)
@@ -999,6 +1038,12 @@ def _check_proposal(add, run, info, c, k, d, lay):
                 if not close(h, k0 - k1, 1e-12, 1e-12):
                     add("C15:hastings:HMCOperator", f"iteration {k + 1} ({c['op_id']}): Hastings term {h!r} but "
                         f"K0 - K1 = {k0 - k1!r}", "hastings", k)
+                kt = c.get("kin_true", [])
+                if len(kt) >= 2 and math.isfinite(kt[-2]) and math.isfinite(kt[-1]) and \
+                        not close(h, kt[-2] - kt[-1], 1e-8, 1e-9):
+                    add("C15:hastings:HMCOperator:mass-matrix",
+                        f"iteration {k + 1} ({c['op_id']}): Hastings term {h!r} but with the mass matrix the momentum "
+                        f"was drawn from, p0^T M^-1 p0 / 2 - p1^T M^-1 p1 / 2 = {kt[-2] - kt[-1]!r}", "hastings", k)
         else:
             d.update(h1=0.0, h2=0.0)
     elif kind.startswith("GMRF"):
